@@ -533,6 +533,70 @@ def check_routes(ctx, rng, fe, variant=0):
         ctx.report(f'route-background-error:{fe}:{type(ex).__name__ if ex else "?"}', f'{le.get("repr")}', w)
 
 
+def check_cancelled_call(ctx, rng):
+    """The application gives one register / unregister call up (its task is cancelled, or asyncio.wait_for around it expires) while the
+    call waits for its turn or for the forwarder's answer: the calls behind it and every later call still send exactly one
+    command each and report the forwarder's answer."""
+    for fe in ('v2', 'v1'):
+        for rep in range(ctx.n(12, 600)):
+            res = {}
+            when = rng.choice(['waiting-for-the-answer', 'waiting-for-its-turn', 'wait_for-expires'])
+            verb = rng.choice(['register', 'unregister'])
+
+            async def main(S):
+                face = RecFace()
+                the_app = appv2.NDNApp(face=face) if fe == 'v2' else appv1.NDNApp(face=face, keychain=KeychainDigest())
+                fw = Forwarder(face, fe, ['silence'] + ['200'] * 10, ctx, rng, S)
+                res['fw'] = fw
+                main_task = asyncio.ensure_future(the_app.main_loop())
+                await asyncio.sleep(0.005)
+
+                def call(v, pre):
+                    if v == 'register':
+                        return the_app.register(pre) if fe == 'v2' else the_app.register(pre, None)
+                    return the_app.unregister(pre)
+                first = asyncio.ensure_future(call(verb, [C(b'first')]))          # never answered
+                await asyncio.sleep(0.002)
+                if when == 'waiting-for-its-turn':
+                    victim = asyncio.ensure_future(call(verb, [C(b'victim')]))    # queued behind the first
+                    await asyncio.sleep(0.002)
+                    victim.cancel()
+                elif when == 'waiting-for-the-answer':
+                    victim = first
+                    victim.cancel()
+                else:
+                    victim = asyncio.ensure_future(asyncio.wait_for(call(verb, [C(b'victim')]), 0.01))
+                later = asyncio.ensure_future(call('register', [C(b'later')]))
+                await asyncio.gather(victim, return_exceptions=True)
+                try:
+                    res['later'] = await asyncio.wait_for(later, 30)
+                except BaseException as e:   # noqa
+                    res['later'] = e
+                try:
+                    res['last'] = await asyncio.wait_for(call('unregister', [C(b'later')]), 30)
+                except BaseException as e:   # noqa
+                    res['last'] = e
+                if not first.done():
+                    first.cancel()
+                the_app.shutdown()
+                await asyncio.wait_for(main_task, 5)
+            S = vtime.run(main)
+            w = {'frontend': fe, 'given_up_while': when, 'verb': verb}
+            ctx.case(('cancelled-call', fe, when, verb), nontrivial=True)
+            ctx.event('call-given-up-' + when)
+            if S.result != 'ok':
+                ctx.report(f'cancelled-call-scenario-{S.result}:{fe}', f'{S.error!r}', w)
+                continue
+            for k in ('later', 'last'):
+                if res.get(k) is not True:
+                    ctx.report(f'call-after-a-given-up-call:{fe}:{type(res.get(k)).__name__}', f'after one call was given up while {when}, a later call (answered 200) ended with {res.get(k)!r}', w)
+            names = [tuple(c['prefix'] or ()) for c in res['fw'].commands]
+            if names.count((C(b'later'),)) != 2:
+                ctx.report(f'command-count:{fe}:after-a-given-up-call', f'the two later calls produced {names.count((C(b"later"),))} commands', w)
+            if res['fw'].max_inflight > 1 and when != 'waiting-for-the-answer':
+                pass        # (a command whose caller has gone is no longer "in flight" for the application: not judged)
+
+
 def check_parse_response(ctx, rng):
     for i in range(ctx.n(400, 400000)):
         status = rng.choice([0, 200, 400, 403, 404, 500, 65535, 2**32, rng.getrandbits(16)])
@@ -657,7 +721,8 @@ def run(ctx):
         for variant in range(ctx.n(12, 400)):
             check_routes(ctx, rng, fe, variant)
     check_parse_response(ctx, rng)
-    for k in ['exchange-with-strict-application-validator', 'parse-response-with-unknown-elements', 'caller-edits-name-list-after-call', 'exchange', 'concurrent-exchange', 'route-connection', 'reconnect-within-one-millisecond', 'parse-response'] + [f'reply-{r}' for r in REPLIES]:
+    check_cancelled_call(ctx, rng)
+    for k in ['call-given-up-waiting-for-its-turn', 'call-given-up-waiting-for-the-answer', 'call-given-up-wait_for-expires', 'exchange-with-strict-application-validator', 'parse-response-with-unknown-elements', 'caller-edits-name-list-after-call', 'exchange', 'concurrent-exchange', 'route-connection', 'reconnect-within-one-millisecond', 'parse-response'] + [f'reply-{r}' for r in REPLIES]:
         ctx.need_event(k)
     ctx.need_event('exchange-beside-another-application-of-the-process')
     ctx.need_event('exchange-under-a-coarse-clock')
